@@ -328,6 +328,8 @@ record('PcRowIter', h5ad_path='Name', n_rows='Int')
 
 def q_row_iterator(ev, state, node):
     """A-H5AD: the matrix of an h5ad file has one row per obs name (anndata invariant)"""
+    if not _mine(ev):
+        raise Unsupported("AnnDataRowIterator(...) is modelled for the precompute area only")
     pa = _arg(node, 0, 'h5ad_path')
     for k in node.keywords:
         if k.arg != 'h5ad_path':
@@ -369,6 +371,8 @@ def m_get_chunk(ev, state, node, recv, ref):
 def q_shutil_copy(ev, state, node):
     """A-COPY: after shutil.copy(src, dst) the file at dst holds the content of src, hence the
     same obs / var names"""
+    if not _mine(ev):
+        raise Unsupported("shutil.copy is modelled for the precompute area only")
     sa, da = _arg(node, 0, 'src'), _arg(node, 1, 'dst')
     if sa is None or da is None:
         raise Unsupported("shutil.copy arguments")
